@@ -137,6 +137,8 @@ func jobsFor(prop, tier string) []*Job {
 		add(&Job{Name: fmt.Sprintf("O2-fraction/B=%d,dur=10s", B), Pkg: "cbreaker", Harness: "VerifC12Fraction", Params: p("B", B, "dur", 10000000000), IncKind: "cvc5", SkipInc: true, TimeoutS: 300,
 			Solvers: []string{"cvc5", "z3"}, Inductive: true,
 			Bounds:  fmt.Sprintf("recovery duration 10 s, counters symbolic in [0,2^%d), two symbolic instants el0<=el1<=duration; one decision step from any state satisfying the float-level invariant", B)})
+	case "DBG":
+		add(&Job{Name: "dbg", Pkg: "utils", Harness: "VerifDbgResolve", IncKind: "cvc5"})
 	case "C19":
 		lens := [][3]int{{1, 1, 1}, {3, 2, 2}, {2, 1, 3}}
 		if thorough {
